@@ -128,6 +128,17 @@ func (b *refBuilder) defName(f *model.File, prefix string, depth int, n *model.N
 		b.c.ExcludedMap()["names.collision_while_unsuffixed_in_progress"]++
 		pooled = false
 	}
+	if pooled && n != nil && n.Kind == model.KEnum && b.c.Avoid("names.enum_constant_equals_type_name") {
+		// known finding: the constant <Def><Value> of a string enum definition and the type
+		// <Def><Property> of a same-named object definition in another document share one name
+		for _, v := range n.EnumVals {
+			if v.K == jv.Str {
+				b.c.ExcludedMap()["names.enum_constant_equals_type_name"]++
+				pooled = false
+				break
+			}
+		}
+	}
 	if pooled {
 		for _, cand := range []string{"Base", "Item", "Meta", "Part"} {
 			taken := false
